@@ -359,6 +359,12 @@ func RunMain(id, tier string, only int, seedOverride *int64) int {
 		}
 		writeEvidence(p, tier, seed, total, perPass, distinct, len(fresh), kkeys, raceKeys, raceTexts, wall, exit)
 	}
+	if only >= 0 { // replay: show what was re-executed
+		for _, sm := range total.Samples {
+			b, _ := json.Marshal(sm)
+			fmt.Printf("  replayed case: %s\n", trunc(string(b), 3000))
+		}
+	}
 	verdict := map[int]string{0: "held", 1: "violated", 2: "inconclusive"}[exit]
 	fmt.Printf("%s %s seed=%d verdict=%s evaluations=%d distinct_nontrivial=%d violations=%d known_findings=%d race_reports=%d wall=%.1fs\n",
 		id, tier, seed, verdict, total.Evaluations, distinct, len(fresh), len(kkeys), len(raceKeys), wall)
